@@ -330,4 +330,87 @@ MC_INIT
         mc::more_cases(calls - 1, calls - 1);
         flush_notes();
     });
+
+    // (8) LARGE blocks: lengths around 128, 256, 1000 (thorough: around 32768, 65536, 70000); see str_large
+    mc::add_check("mem_large", [] {
+        init_arenas();
+        std::vector<size_t> LS = large_lengths();
+        int c0 = mc::choose((int)LS.size() * 2 * 5);
+        size_t L = LS[c0 / 10];
+        int pat = (c0 / 5) % 2, grp = c0 % 5;
+        static const char *GN[5] = {"memcpy memmove (disjoint, 5 alignment pairs)", "memmove with dst = src +-1, +-255, +-256, +-257", "memset", "memcmp", "memchr memrchr"};
+        mc::describe("n = %zu, pattern %s: %s; difference / target at 0,1,254..257,n-1, n arguments around them; both guard placements", L,
+                     pat ? "all 'a'" : "i mod 251", GN[grp]);
+        mc::nontrivial();
+        set_window(L + 300);
+        std::vector<uint8_t> s(L + 300), b(L + 300);
+        for (size_t i = 0; i < s.size(); i++)
+            s[i] = pat ? 'a' : (uint8_t)(i % 251);
+        std::vector<size_t> P = large_positions(L);
+        unsigned long c_before = ncalls;
+        for (PL = AFTER; PL <= BEFORE; PL++)
+        {
+            if (grp == 0)
+            {
+                static const int AL[5][2] = {{0, 0}, {1, 0}, {0, 1}, {3, 5}, {8, 16}};
+                for (auto &al : AL)
+                {
+                    t_copy(false, s.data(), L, al[0], al[1]);
+                    t_copy(true, s.data(), L, al[0], al[1]);
+                }
+            }
+            else if (grp == 1)
+            {
+                for (long d : {1L, 255L, 256L, 257L, -1L, -255L, -256L, -257L})
+                    for (int mis = 0; mis < 2; mis++)
+                        t_move_overlap(s.data(), L, d, mis);
+            }
+            else if (grp == 2)
+            {
+                for (int c : {0, 0x5A, -1, 263})
+                    for (int mis : {0, 1, 7})
+                        t_set(L, c, mis);
+            }
+            else if (grp == 3)
+            {
+                t_memcmp(s.data(), s.data(), L, L, 0, 0);
+                t_memcmp(s.data(), s.data(), L, L, 1, 3);
+                for (size_t p : P)
+                {
+                    b = s;
+                    b[p] = 0xFD;
+                    for (size_t k = p + 1; k < L; k++) // after the first difference the order is the other way round
+                        b[k] = 0;
+                    for (size_t n : {p, p + 1, L})
+                    {
+                        t_memcmp(s.data(), b.data(), n, L, 0, 0);
+                        t_memcmp(b.data(), s.data(), n, L, 3, 1);
+                    }
+                }
+            }
+            else
+            {
+                t_memchr(s.data(), L, L, 0xFE, 0);
+                for (size_t p : P)
+                {
+                    b = s;
+                    b[p] = 0xFE;
+                    for (size_t n : {p, p + 1, (size_t)255, (size_t)256, (size_t)257, L})
+                        if (n <= L)
+                            t_memchr(b.data(), n, L, 0xFE, 0);
+                    t_memchr(b.data(), L, L, 0xFE - 256, 1);
+                    b[L - 1] = 0xFE;
+                    b[0] = 0xFE;
+                    b[p] = s[p];
+                    t_memchr(b.data(), L, L, 0xFE, 0); // first at 0, last at n-1
+                }
+            }
+        }
+        PL = AFTER;
+        restore_window();
+        unsigned long calls = ncalls - c_before;
+        if (calls)
+            mc::more_cases(calls - 1, calls - 1);
+        flush_notes();
+    });
 }
